@@ -12,8 +12,11 @@ def sh(cmd, **kw):
     return subprocess.run(cmd, shell=True, stdout=subprocess.PIPE, stderr=subprocess.STDOUT, text=True, **kw)
 
 
+REPO = os.environ.get("SWEEP_REPO", "/repo")  # a scratch worktree may be used instead of /repo
+
+
 def main():
-    assert sh("git -C /repo status --porcelain --untracked-files=no").stdout.strip() == "", "/repo not clean"
+    assert sh("git -C %s status --porcelain --untracked-files=no" % REPO).stdout.strip() == "", "%s not clean" % REPO
     rows = []
     for arg in sys.argv[1:]:
         d, _, props = arg.partition(":")
@@ -22,19 +25,19 @@ def main():
         if os.path.exists(os.path.join(d, "meta.json")):
             meta = json.load(open(os.path.join(d, "meta.json")))
         props = props.split(",") if props else [meta.get("property")]
-        r = sh("git -C /repo apply %s/patch.diff" % d)
+        r = sh("git -C %s apply %s/patch.diff" % (REPO, d))
         if r.returncode != 0:
             rows.append((d, "-", "PATCH DOES NOT APPLY: " + r.stdout.strip()[:200]))
             continue
         try:
             for p in props:
                 t0 = time.time()
-                c = sh("cd /verif && ./check %s --no-evidence %s" % (p, os.environ.get("SWEEP_ARGS", "")))
+                c = sh("cd /verif && ASYNQ_VERIF_REPO=%s ./check %s --no-evidence %s" % (REPO, p, os.environ.get("SWEEP_ARGS", "")))
                 line = [l for l in c.stdout.splitlines() if l.startswith("violation:")]
                 rows.append((os.path.basename(os.path.dirname(d)) + "/" + os.path.basename(d) if "/out/" in d else os.path.basename(d), p,
                              "exit=%d %.0fs %s" % (c.returncode, time.time() - t0, line[0][:230] if line else c.stdout.strip().splitlines()[-1][:200])))
         finally:
-            sh("git -C /repo checkout -- .")
+            sh("git -C %s checkout -- ." % REPO)
     for r in rows:
         print("%-40s %-4s %s" % r)
 
